@@ -34,7 +34,22 @@ PROPS = ['C14']
 LABELS = ['dir-pkl', 'dir-json', 'dir-fast', 'dir-z', 'dir-mmap', 'dir-src', 'sql-file',
           'file-pkl', 'file-json']
 
-READ_OPS = [(4, 'get'), (3, 'contains'), (2, 'len'), (3, 'keys'), (4, 'items'), (3, 'load'), (1, 'values')]
+READ_OPS = [(4, 'get'), (2, 'getd'), (3, 'contains'), (2, 'len'), (3, 'keys'), (1, 'iter'), (4, 'items'), (3, 'load'),
+            (1, 'values')]
+WRITE_KINDS = ('set', 'setdefault', 'update', 'dump', 'del', 'pop')
+REMOVE_KINDS = ('del', 'pop')
+
+
+def op_writes(op):
+    """(key, value or _ABSENT) pairs an operation writes"""
+    k = op['op']
+    if k in ('set', 'setdefault'):
+        return [(op['k'], op['v'])]
+    if k in ('update', 'dump'):
+        return [(a, b) for a, b in op['m']]
+    if k in REMOVE_KINDS:
+        return [(op['k'], _ABSENT)]
+    return []
 
 
 def fam(label):
@@ -55,7 +70,7 @@ def generate(rng, prop, tier):
     label = rng.choice(LABELS)
     f = fam(label)
     nkeys = rng.randint(2, 5)
-    keys = key_names(label, nkeys + 6)
+    keys = key_names(label, nkeys + 14)
     pre = [{'op': 'pre', 'k': keys[i], 'v': 'init-%d' % i} for i in range(rng.randint(0, nkeys))]
     prekeys = [p['k'] for p in pre]
     if f == 'file':
@@ -78,7 +93,19 @@ def generate(rng, prop, tier):
             for j in range(n):
                 k = next(fresh)      # always a new key of its own (overwrites are the overwriter's role)
                 mine.append(k)
-                ops.append({'op': 'set', 'k': k, 'v': 'c%d-%d' % (ci, j)})
+                form = rng.weighted([(6, 'set'), (2, 'update'), (2, 'dump'), (1, 'setdefault')])
+                if form in ('update', 'dump'):
+                    # several own keys through one update() / one cache.dump()
+                    m = [[k, 'c%d-%d' % (ci, j)]]
+                    try:
+                        k2 = next(fresh)
+                        m.append([k2, 'c%d-%db' % (ci, j)])
+                        mine.append(k2)
+                    except StopIteration:
+                        pass
+                    ops.append({'op': form, 'm': m})
+                else:
+                    ops.append({'op': form, 'k': k, 'v': 'c%d-%d' % (ci, j)})
         elif role == 'overwriter':
             if not avail:
                 k = next(fresh)
@@ -98,7 +125,7 @@ def generate(rng, prop, tier):
             for j in range(n):
                 kind = rng.weighted(READ_OPS)
                 op = {'op': kind}
-                if kind in ('get', 'contains'):
+                if kind in ('get', 'getd', 'contains'):
                     op['k'] = rng.choice(keys[:len(pre) + 3])
                 ops.append(op)
         elif role == 'opener':
@@ -140,6 +167,17 @@ def do_op(state, cfg, root, op):
     if k == 'set':
         a[op['k']] = op['v']
         return None
+    if k == 'setdefault':
+        return a.setdefault(op['k'], op['v'])
+    if k == 'update':
+        a.update(dict((x, y) for x, y in op['m']))
+        return None
+    if k == 'dump':
+        c = B.make(cfg, root, cached=True)
+        for x, y in op['m']:
+            c[x] = y
+        c.dump()
+        return None
     if k == 'del':
         del a[op['k']]
         return None
@@ -147,6 +185,10 @@ def do_op(state, cfg, root, op):
         return a.pop(op['k'])
     if k == 'get':
         return a[op['k']]
+    if k == 'getd':
+        return a.get(op['k'], '<default>')
+    if k == 'iter':
+        return list(iter(a))
     if k == 'contains':
         return op['k'] in a
     if k == 'len':
@@ -336,10 +378,10 @@ def _analyse(case, history, final):
     writes = {}     # key -> list of (start, end, value or ABSENT, acknowledged)
     for key, o in sorted(ops.items()):
         op = o['op']
-        if op['op'] in ('set', 'del', 'pop'):
-            val = op['v'] if op['op'] == 'set' else _ABSENT
+        if op['op'] in WRITE_KINDS:
             ack = o['res'] is not None and o['res'][0] == 'ok'
-            writes.setdefault(op['k'], []).append((o['start'], o['end'] or INF, val, ack, key))
+            for (wk, val) in op_writes(op):
+                writes.setdefault(wk, []).append((o['start'], o['end'] or INF, val, ack, key))
 
     def allowed(k, rs, re):
         """values a read of key k spanning [rs, re] may return"""
@@ -375,7 +417,7 @@ def _analyse(case, history, final):
         if res is None:
             return 'client-stuck', 'operation %s of client %d never returned' % (json.dumps(op), c)
         tag = res[0]
-        if kind in ('get', 'contains', 'len', 'keys', 'values', 'items', 'load', 'open'):
+        if kind in ('get', 'getd', 'contains', 'len', 'keys', 'iter', 'values', 'items', 'load', 'open'):
             if tag == 'KeyError' and kind == 'get':
                 if _ABSENT not in allowed(op['k'], rs, re):
                     return 'read-missing', 'client %d: lookup of %r raised KeyError although the key was stored ' \
@@ -386,7 +428,12 @@ def _analyse(case, history, final):
                     continue        # busy timeout elapsed on the simulated clock: legal, unacknowledged
                 return 'reader-fails', 'client %d (%s): %s raised %s' % (c, role[c], json.dumps(op), res[1])
             val = dec(res[1])
-            if kind == 'get':
+            if kind == 'getd' and val == '<default>':
+                if _ABSENT not in allowed(op['k'], rs, re):
+                    return 'read-missing', 'client %d: get(%r, default) returned the default although the key was ' \
+                        'stored throughout (allowed: %s)' % (c, op['k'], _shl(allowed(op['k'], rs, re)))
+                continue
+            if kind in ('get', 'getd'):
                 if val not in [v for v in allowed(op['k'], rs, re) if v is not _ABSENT]:
                     return 'torn-read', 'client %d: lookup of %r returned %r, never stored for it (allowed: %s)' \
                         % (c, op['k'], val, _shl(allowed(op['k'], rs, re)))
@@ -396,7 +443,7 @@ def _analyse(case, history, final):
                     return 'phantom-read', 'client %d: %r reported present, never stored' % (c, op['k'])
                 if not val and _ABSENT not in al:
                     return 'read-missing', 'client %d: %r reported absent although stored throughout' % (c, op['k'])
-            elif kind in ('keys', 'items', 'load', 'values', 'len'):
+            elif kind in ('keys', 'iter', 'items', 'load', 'values', 'len'):
                 if kind == 'len':
                     lo = sum(1 for k in init if stable(k, rs, re))
                     hi = len(set(list(init) + [k for k in writes if ever(k, re)]))
@@ -411,6 +458,8 @@ def _analyse(case, history, final):
                         if v not in allv:
                             return 'torn-read', 'client %d: values() contains %r, never stored' % (c, v)
                     continue
+                if kind == 'iter':
+                    kind = 'keys'
                 got = dict((x, None) for x in val) if kind == 'keys' else dict((x[0], x[1]) for x in val)
                 for k in got:
                     if not isinstance(k, str) or not ever(k, re):
@@ -426,28 +475,31 @@ def _analyse(case, history, final):
                 if f == 'file' and kind in ('items', 'load', 'keys'):
                     # single-file archive: the reader must see ONE complete dictionary that existed,
                     # i.e. the prior contents with some prefix of the (single) writer's operations applied
-                    wops = sorted((o2['start'], o2['op'], o2['res']) for o2 in ops.values()
-                                  if o2['op']['op'] in ('set', 'del', 'pop'))
+                    wops = sorted(((o2['start'], o2['op'], o2['res']) for o2 in ops.values()
+                                   if o2['op']['op'] in WRITE_KINDS), key=lambda t: t[0])
                     if all(r is not None and r[0] == 'ok' for (_, _, r) in wops):
                         # an open() overlapping a write can re-install an older dictionary (known finding
                         # lost-write@open-overlaps-write); the file then really holds the prior contents
                         # with a SUBSET of the writes applied, so those are complete dictionaries too
                         spans = [(o2['start'], o2['end'] or INF) for o2 in ops.values()
-                                 if o2['op']['op'] in ('set', 'del', 'pop')]
+                                 if o2['op']['op'] in WRITE_KINDS]
                         overlap = any(o2['op']['op'] == 'open' and any(o2['start'] < we and (o2['end'] or INF) > ws
                                                                        for (ws, we) in spans)
                                       for o2 in ops.values())
                         states = [dict(init)]
                         for (_, wop, _) in wops:
-                            nxt = []
-                            for s0 in (states if overlap else states[-1:]):
-                                s = dict(s0)
-                                if wop['op'] == 'set':
-                                    s[wop['k']] = wop['v']
-                                else:
-                                    s.pop(wop['k'], None)
-                                nxt.append(s)
-                            states = states + [s for s in nxt if s not in states]
+                            # a multi-key update()/dump() may be applied key by key: every key of the
+                            # operation is one step (prefixes without an overlapping open, subsets with one)
+                            for (wk, wv) in op_writes(wop):
+                                nxt = []
+                                for s0 in (states if overlap else states[-1:]):
+                                    s = dict(s0)
+                                    if wv is _ABSENT:
+                                        s.pop(wk, None)
+                                    else:
+                                        s[wk] = wv
+                                    nxt.append(s)
+                                states = states + [s for s in nxt if s not in states]
                         if kind == 'keys':
                             okay = any(set(got) == set(s) for s in states)
                         else:
@@ -501,7 +553,7 @@ def analyse(case, history, final):
     if f == 'file':
         # did some client's open() (which rewrites the file) overlap another client's write?
         opens = [(s, e, c) for (s, e, op, c) in ops.values() if op['op'] == 'open']
-        wrs = [(s, e, c) for (s, e, op, c) in ops.values() if op['op'] in ('set', 'del', 'pop')]
+        wrs = [(s, e, c) for (s, e, op, c) in ops.values() if op['op'] in WRITE_KINDS]
         if any(os_ < we and oe > ws and oc != wc for (os_, oe, oc) in opens for (ws, we, wc) in wrs):
             window = '@open-overlaps-write'
     else:
@@ -511,9 +563,9 @@ def analyse(case, history, final):
             else [(0, 1 << 60)]
         kinds = ('unlink', 'rmdir') if f == 'dir' else ('sql-dml',)
         for (s_, e_, op, c) in ops.values():
-            if c == victim or op['op'] not in ('set', 'del', 'pop'):
+            if c == victim or op['op'] not in WRITE_KINDS:
                 continue
-            if f == 'sql' and op['op'] == 'set':
+            if f == 'sql' and op['op'] not in REMOVE_KINDS:
                 continue
             removing = any(kind == 'ev' and a in kinds and cc == c and s_ < seq < e_
                            for (seq, cc, kind, a, b) in history)
